@@ -218,4 +218,78 @@ def run (mode : Mode) (mask : Bool) (G : Geom) (stripes : List Stripe) (img : Im
 
 end Pipe
 
+/-! ### the file plumbing of `filter_image` / `sigma_filter`: which plane is read, where BSCALE is applied and
+    undone, what is returned and what is written (the float32 cast is not modelled) -/
+
+section Plumb
+variable {α : Type} [R α] [RLt α]
+
+/-- what BANE reads from the input file -/
+structure FileIn (α : Type) where
+  naxis : Nat                 -- NAXIS: 2, 3 or 4
+  n3 : Nat                    -- NAXIS3 (length of the cube axis) when naxis > 2
+  bscale : Option α           -- the BSCALE keyword, if present
+  planes : Nat → Img α        -- raw (unscaled) pixel planes, indexed along the cube axis
+
+/-- `data *= header['BSCALE']` -/
+def mulImg (b : α) (d : Img α) : Img α := fun y x => (d y x).map (· * b)
+/-- `bkg / bscale` -/
+def divImg (b : α) (d : Img α) : Img α := fun y x => (d y x).map (· / b)
+
+/-- the plane `sigma_filter` loads: `section[rows]`, `section[cube_index, rows]` or `section[0, cube_index, rows]` -/
+def selected (f : FileIn α) (cube : Nat) : Img α := if f.naxis = 2 then f.planes 0 else f.planes cube
+
+/-- the physical image: the selected raw plane, times BSCALE when the keyword is present -/
+def physical (f : FileIn α) (cube : Nat) : Img α :=
+  match f.bscale with
+  | none => selected f cube
+  | some b => mulImg b (selected f cube)
+
+/-- `compress()`: `data[::f]` followed by a copy of the last row (column): file index ↦ map index -/
+def decIdx (n f i : Nat) : Nat := if i < (n + f - 1) / f then i * f else n - 1
+
+/-- a written FITS image: the stored (raw) values, its shape and the BSCALE keyword copied from the input header -/
+structure FileOut (α : Type) where
+  rows : Nat
+  cols : Nat
+  bscale : Option α
+  data : Img α
+
+/-- what astropy returns when the file is read with scaling: stored value × BSCALE -/
+def FileOut.readBack (o : FileOut α) : Img α :=
+  match o.bscale with
+  | none => o.data
+  | some b => mulImg b o.data
+
+structure Result (α : Type) where
+  returned : Option (Img α × Img α)      -- `none` is `return None` (cube index out of range)
+  bkgFile : Option (FileOut α)
+  rmsFile : Option (FileOut α)
+
+/-- the grid actually used: `compressed` forces a square step `min(step)` -/
+def effGeom (G : Geom) (compressed : Bool) : Geom :=
+  if compressed && G.gy != G.gx then { G with gy := min G.gy G.gx, gx := min G.gy G.gx } else G
+
+/-- `filter_image(im_name, out_base, step_size, box_size, mask, compressed, nslice→stripes, cube_index)` -/
+def filterImage (mode : Mode) (mask : Bool) (G : Geom) (stripesOf : Geom → List Stripe) (f : FileIn α) (cube : Nat)
+    (outBase compressed : Bool) : Result α :=
+  if f.naxis > 2 && decide (cube ≥ f.n3) then { returned := none, bkgFile := none, rmsFile := none } else
+  let G' := effGeom G compressed
+  let img := physical f cube
+  let bkg := bkgOut mask G' (stripesOf G') img
+  let rms := rmsOut mode mask G' (stripesOf G') img
+  let unscale : Img α → Img α := fun m => match f.bscale with
+    | none => divImg (R.ofNat 1) m
+    | some b => divImg b m
+  let file : Img α → FileOut α := fun m =>
+    if compressed then
+      { rows := (G'.R + G'.gy - 1) / G'.gy + 1, cols := (G'.C + G'.gy - 1) / G'.gy + 1, bscale := f.bscale,
+        data := fun i j => unscale m (decIdx G'.R G'.gy i) (decIdx G'.C G'.gy j) }
+    else { rows := G'.R, cols := G'.C, bscale := f.bscale, data := unscale m }
+  { returned := some (bkg, rms),
+    bkgFile := if outBase then some (file bkg) else none,
+    rmsFile := if outBase then some (file rms) else none }
+
+end Plumb
+
 end Aegean.Model.C06
